@@ -1,6 +1,6 @@
 (** C20 — serialisation of model results for the differential harness (no proofs).
     Output is JSON with ' instead of the double quote, no blanks, no semicolons. *)
-From Coq Require Import List String Bool ZArith Floats DecimalString.
+From Coq Require Import List String Bool ZArith PrimFloat SpecFloat FloatOps DecimalString.
 From V.C20 Require Import Model Spec GenGates.
 Import ListNotations.
 Open Scope string_scope.
